@@ -45,6 +45,11 @@ def generate(seed, tier="quick"):
             k = rnd.choice(["prior_sample", "rejection_by_count"])
             if k == "prior_sample":
                 op = {"id": oid, "op": "prior_sample", "size": rnd.randint(1, 6), "generate_linear": rnd.random() < 0.5, "return_logprobs": rnd.random() < 0.3, "rewind": rnd.random() < 0.6}
+                if tier == "thorough" and rnd.random() < 0.01:
+                    # scale probe: a library of realistic size asked for in one request (block-wise generation, if any,
+                    # must still draw everything from the given generator)
+                    op["size"] = 2**15 + rnd.randint(1, 300)
+                    op["return_logprobs"] = False
             else:
                 op = {"id": oid, "op": "rejection_by_count", "data": 0, "N": rnd.randint(2, 12), "in_memory": rnd.random() < 0.5, "kw": {"n_linear_samples": rnd.choice([1, 2])}}
                 if not op["in_memory"]:
